@@ -145,7 +145,7 @@ def run(R, name, B, only=None, flags=(False, True), auto_only=False):
 QUICK_ENVS = ["Knapsack", "Maze@3x3", "Snake", "Cleaner@3x3x1", "GraphColoring", "TSP", "SlidingTilePuzzle", "Connector", "Minesweeper", "CVRP", "JobShop"]
 # heavier equivalence queries (minutes each): thorough tier only
 THOROUGH_ENVS = ["Tetris", "RubiksCube", "LevelBasedForaging", "Sudoku", "FlatPack", "Sokoban", "MultiCVRP", "Game2048", "RobotWarehouse", "BinPack@csv"]
-JOBTIMEOUT = {"quick": 600, "thorough": 3600}
+JOBTIMEOUT = {"quick": 600, "thorough": 2400}
 
 
 def jobs(tier, seed):
